@@ -6,6 +6,7 @@ use http::Method;
 use ruma_common::api::{AuthScheme, MatrixVersion, Metadata, OutgoingRequest, VersionHistory};
 use serde_json::{json, Value};
 
+mod c17;
 mod synth;
 
 const ALL_VERSIONS: [MatrixVersion; 15] = [
@@ -189,6 +190,8 @@ fn main() {
         Some("real") => real(),
         Some("wire") => synth::wire(&args[1..]),
         Some("xmatrix") => synth::xmatrix(),
+        Some("c17") => c17::run(&args[1..]),
+        Some("c17seeds") => c17::seeds(),
         _ => {
             eprintln!("usage: vh-api select|subsets|real|wire|xmatrix");
             std::process::exit(2);
